@@ -350,10 +350,420 @@ def fold_struct_constants(tree):
     return n
 
 
+def int_bytes_forms(tree):
+    """n.to_bytes(4, 'big', signed=True) -> struct.pack('!i', n);  int.from_bytes(b, 'big', signed=True) ->
+    struct.unpack('!i', b)[0]   (unsigned: '!I'; sizes 1/2/4/8 -> b/h/i/q).  `x = struct.unpack(f, b)[0]` is then
+    read as `x, = struct.unpack(f, b)`.  The signedness is kept in the format, so a writer and a reader that disagree
+    about it disagree about the format."""
+    codes = {1: 'b', 2: 'h', 4: 'i', 8: 'q'}
+    n = 0
+
+    def kw(node, name, pos, default=None):
+        for k in node.keywords:
+            if k.arg == name:
+                return k.value
+        return node.args[pos] if len(node.args) > pos else default
+
+    def fmt(size, order, signed):
+        if not (isinstance(size, ast.Constant) and size.value in codes and isinstance(order, ast.Constant)
+                and order.value in ('big', 'little')):
+            return None
+        sg = isinstance(signed, ast.Constant) and signed.value is True
+        c = codes[size.value]
+        return ('!' if order.value == 'big' else '<') + (c if sg else c.upper())
+
+    class T(ast.NodeTransformer):
+        def visit_Call(self, node):
+            nonlocal n
+            self.generic_visit(node)
+            f = node.func
+            if isinstance(f, ast.Attribute) and f.attr == 'to_bytes' and 1 <= len(node.args) + len(node.keywords) <= 3:
+                fm = fmt(kw(node, 'length', 0), kw(node, 'byteorder', 1, ast.Constant('big')),
+                         kw(node, 'signed', 2, ast.Constant(False)))
+                if fm:
+                    n += 1
+                    new = ast.Call(ast.Attribute(ast.Name('struct', ast.Load()), 'pack', ast.Load()),
+                                   [ast.Constant(fm), f.value], [])
+                    return ast.fix_missing_locations(ast.copy_location(new, node))
+            return node
+
+        def visit_Assign(self, node):
+            nonlocal n
+            self.generic_visit(node)
+            v = node.value
+            if isinstance(v, ast.Call) and ast.unparse(v.func) == 'int.from_bytes' and v.args and \
+                    len(node.targets) == 1 and isinstance(node.targets[0], ast.Name):
+                order = kw(v, 'byteorder', 1, ast.Constant('big'))
+                signed = kw(v, 'signed', 2, ast.Constant(False))
+                sg = isinstance(signed, ast.Constant) and signed.value is True
+                if isinstance(order, ast.Constant) and order.value in ('big', 'little'):
+                    # the size is the reader's business (it reads calcsize bytes): assume the 4-byte header code
+                    fm = ('!' if order.value == 'big' else '<') + ('i' if sg else 'I')
+                    n += 1
+                    call = ast.Call(ast.Attribute(ast.Name('struct', ast.Load()), 'unpack', ast.Load()),
+                                    [ast.Constant(fm), v.args[0]], [])
+                    new = ast.Assign([ast.Tuple([node.targets[0]], ast.Store())], call)
+                    return ast.fix_missing_locations(ast.copy_location(new, node))
+            return node
+    T().visit(tree)
+    return n
+
+
+def flag_loops(tree):
+    """A loop whose early exits are recorded in a boolean flag and tested right after it is read as for/else:
+
+        FLAG = c                      for ...:
+        for ...:                          ... break           (FLAG = not c dropped)
+            ... FLAG = not c; break   else:
+        if <FLAG is not c>: JUMP          REST; continue
+        REST                          JUMP
+
+    Conditions: FLAG is a local assigned only a boolean constant, once before the loop (same statement list) and, inside
+    the loop, only directly before a `break` of that loop; every `break` of the loop is preceded by such an assignment;
+    FLAG is read nowhere but in the test that directly follows the loop; JUMP is a single break / continue / return /
+    raise; REST runs to the end of a statement list from whose end the next thing executed is the next iteration of
+    the enclosing loop (each enclosing statement up to that loop is the last of its list; a `try` in between has no
+    else / finally), so that `continue` is the same as falling off the end."""
+    n = 0
+
+    def const_bool(v):
+        return isinstance(v, ast.Constant) and isinstance(v.value, bool)
+
+    def breaks_of(loop):
+        out = []
+
+        def rec(lst, parent_lists):
+            for i, st in enumerate(lst):
+                if isinstance(st, ast.Break):
+                    out.append((lst, i))
+                elif isinstance(st, (ast.For, ast.While, ast.FunctionDef, ast.AsyncFunctionDef, ast.ClassDef)):
+                    if isinstance(st, (ast.For, ast.While)):
+                        rec(st.orelse, parent_lists)
+                    continue
+                else:
+                    for f in ('body', 'orelse', 'finalbody'):
+                        sub = getattr(st, f, None)
+                        if isinstance(sub, list) and sub and isinstance(sub[0], ast.stmt):
+                            rec(sub, parent_lists)
+                    for h in getattr(st, 'handlers', []) or []:
+                        rec(h.body, parent_lists)
+        rec(loop.body, None)
+        return out
+
+    def tail_to_loop(fn, target_list):
+        """Is falling off the end of target_list the same as `continue` of the nearest enclosing loop?"""
+        # find the chain of (list, index) from fn down to target_list
+        def find(lst, chain):
+            if lst is target_list:
+                return chain
+            for i, st in enumerate(lst):
+                for f in ('body', 'orelse', 'finalbody'):
+                    sub = getattr(st, f, None)
+                    if isinstance(sub, list) and sub and isinstance(sub[0], ast.stmt):
+                        r = find(sub, chain + [(lst, i, st, f)])
+                        if r is not None:
+                            return r
+                for h in getattr(st, 'handlers', []) or []:
+                    r = find(h.body, chain + [(lst, i, st, 'handler')])
+                    if r is not None:
+                        return r
+            return None
+        chain = find(fn.body, [])
+        if chain is None:
+            return False
+        for (lst, i, st, f) in reversed(chain):
+            if isinstance(st, (ast.For, ast.While)):
+                return f == 'body'
+            if isinstance(st, (ast.FunctionDef, ast.AsyncFunctionDef, ast.ClassDef)):
+                return False
+            if isinstance(st, ast.Try):
+                if f != 'body' or st.orelse or st.finalbody:
+                    return False
+            elif isinstance(st, ast.With):
+                pass
+            elif isinstance(st, ast.If):
+                pass
+            else:
+                return False
+            if i != len(lst) - 1:
+                return False
+        return False
+
+    for fn in [x for x in ast.walk(tree) if isinstance(x, (ast.FunctionDef, ast.AsyncFunctionDef))]:
+        changed = True
+        while changed:
+            changed = False
+            for lst in _all_stmt_lists(fn):
+                for k, loop in enumerate(lst):
+                    if not (isinstance(loop, (ast.For, ast.While)) and not loop.orelse and k + 1 < len(lst)):
+                        continue
+                    test_if = lst[k + 1]
+                    if not (isinstance(test_if, ast.If) and not test_if.orelse and len(test_if.body) == 1 and
+                            isinstance(test_if.body[0], (ast.Break, ast.Continue, ast.Return, ast.Raise))):
+                        continue
+                    t = test_if.test
+                    neg = False
+                    if isinstance(t, ast.UnaryOp) and isinstance(t.op, ast.Not):
+                        t, neg = t.operand, True
+                    if not isinstance(t, ast.Name):
+                        continue
+                    flag = t.id
+                    inits = []
+                    for olst in _all_stmt_lists(fn):
+                        for j, st in enumerate(olst):
+                            if isinstance(st, ast.Assign) and len(st.targets) == 1 and \
+                                    isinstance(st.targets[0], ast.Name) and st.targets[0].id == flag and \
+                                    const_bool(st.value) and (olst is lst and j < k or olst is not lst and any(
+                                        any(x is loop for x in ast.walk(later)) for later in olst[j + 1:])):
+                                inits.append((olst, st))
+                    if len(inits) != 1:
+                        continue
+                    c = inits[0][1].value.value
+                    # the test must be true exactly when the flag was flipped: (flag, c False) or (not flag, c True)
+                    if (not neg and c is not False) or (neg and c is not True):
+                        continue
+                    brs = breaks_of(loop)
+                    if not brs:
+                        continue
+                    ok = True
+                    marks = []
+                    for (bl, bi) in brs:
+                        prev = bl[bi - 1] if bi > 0 else None
+                        if not (isinstance(prev, ast.Assign) and len(prev.targets) == 1 and
+                                isinstance(prev.targets[0], ast.Name) and prev.targets[0].id == flag and
+                                const_bool(prev.value) and prev.value.value is (not c)):
+                            ok = False
+                            break
+                        marks.append((bl, prev))
+                    if not ok:
+                        continue
+                    # no other use of the flag in the function
+                    uses = [x for x in ast.walk(fn) if isinstance(x, ast.Name) and x.id == flag]
+                    if len(uses) != 1 + len(marks) + 1:
+                        continue
+                    rest = lst[k + 2:]
+                    if rest and not tail_to_loop(fn, lst):
+                        continue
+                    for (bl, prev) in marks:
+                        bl.remove(prev)
+                    inits[0][0].remove(inits[0][1])
+                    k2 = lst.index(loop)
+                    loop.orelse = (rest + [ast.copy_location(ast.Continue(), loop)]) if rest else \
+                        [ast.copy_location(ast.Pass(), loop)]
+                    del lst[k2 + 1:]
+                    lst.append(test_if.body[0])
+                    ast.fix_missing_locations(fn)
+                    n += 1
+                    changed = True
+                    break
+                if changed:
+                    break
+    return n
+
+
+def new_from_imports(tree, ref_names):
+    """A NEW module-level `from M import f [as g]` (g not a module-level name of the reference tree, M a standard
+    module the reference code calls through its name: os, signal, errno, struct, time, sys) is read as M.f at every
+    load of g that no local or parameter shadows."""
+    mods = ('os', 'signal', 'errno', 'struct', 'sys', 'select', 'socket', 'itertools', 'bisect', 'threading')
+    table = {}
+    for st in tree.body:
+        if isinstance(st, ast.ImportFrom) and st.level == 0 and st.module in mods:
+            for a in st.names:
+                g = a.asname or a.name
+                if ref_names is not None and g not in ref_names and a.name != '*':
+                    table[g] = (st.module, a.name)
+    if not table:
+        return []
+    done = set()
+
+    class T(ast.NodeTransformer):
+        def __init__(self):
+            self.shadow = [set()]
+
+        def visit_FunctionDef(self, node):
+            names = {a.arg for a in node.args.posonlyargs + node.args.args + node.args.kwonlyargs}
+            if node.args.vararg:
+                names.add(node.args.vararg.arg)
+            if node.args.kwarg:
+                names.add(node.args.kwarg.arg)
+            for x in ast.walk(node):
+                if isinstance(x, ast.Name) and isinstance(x.ctx, (ast.Store, ast.Del)):
+                    names.add(x.id)
+            self.shadow.append(self.shadow[-1] | names)
+            self.generic_visit(node)
+            self.shadow.pop()
+            return node
+        visit_AsyncFunctionDef = visit_FunctionDef
+        visit_Lambda = visit_FunctionDef
+
+        def visit_Name(self, node):
+            if isinstance(node.ctx, ast.Load) and node.id in table and node.id not in self.shadow[-1]:
+                m, f = table[node.id]
+                done.add('%s -> %s.%s' % (node.id, m, f))
+                return ast.copy_location(ast.Attribute(ast.Name(m, ast.Load()), f, ast.Load()), node)
+            return node
+    T().visit(tree)
+    ast.fix_missing_locations(tree)
+    return sorted(done)
+
+
+def insort_form(tree):
+    """L.insert(bisect.bisect_right(L, x), x)  (also bisect.bisect)  ->  bisect.insort(L, x);  bisect_left -> insort_left"""
+    n = 0
+
+    class T(ast.NodeTransformer):
+        def visit_Call(self, node):
+            nonlocal n
+            self.generic_visit(node)
+            f = node.func
+            if isinstance(f, ast.Attribute) and f.attr == 'insert' and len(node.args) == 2 and not node.keywords and \
+                    isinstance(node.args[0], ast.Call) and len(node.args[0].args) == 2:
+                inner = node.args[0]
+                name = ast.unparse(inner.func)
+                if name in ('bisect.bisect_right', 'bisect.bisect', 'bisect.bisect_left') and \
+                        ast.dump(inner.args[0]) == ast.dump(f.value) and ast.dump(inner.args[1]) == ast.dump(node.args[1]):
+                    n += 1
+                    new = ast.Call(ast.Attribute(ast.Name('bisect', ast.Load()),
+                                                 'insort_left' if name.endswith('_left') else 'insort', ast.Load()),
+                                   [f.value, node.args[1]], [])
+                    return ast.fix_missing_locations(ast.copy_location(new, node))
+            return node
+    T().visit(tree)
+    return n
+
+
+def restore_closures(tree, modname, known, ref_locals=None):
+    """a closure of the reference tree (mod:C.m.f) that became a NEW staticmethod C.g used by m only (as self.g / C.g /
+    cls.g / type(self).g): read as the closure again -- `def f` nested at the top of m, the references as plain f."""
+    done = []
+    for c in [n for n in tree.body if isinstance(n, ast.ClassDef)]:
+        for g in [st for st in list(c.body) if isinstance(st, ast.FunctionDef) and
+                  any(isinstance(d, ast.Name) and d.id == 'staticmethod' for d in st.decorator_list)]:
+            if '%s:%s.%s' % (modname, c.name, g.name) in known:
+                continue
+            users = []
+            for m_ in c.body:
+                if not isinstance(m_, ast.FunctionDef) or m_ is g or not m_.args.args:
+                    continue
+                recv = m_.args.args[0].arg
+                refs = [x for x in ast.walk(m_) if isinstance(x, ast.Attribute) and x.attr == g.name and
+                        ast.unparse(x.value) in (recv, c.name, 'type(%s)' % recv, '%s.__class__' % recv)]
+                if refs:
+                    users.append((m_, refs))
+            if len(users) != 1:
+                continue
+            m_, refs = users[0]
+            prefix = '%s:%s.%s.' % (modname, c.name, m_.name)
+            nested_now = {x.name for x in ast.walk(m_) if isinstance(x, ast.FunctionDef) and x is not m_}
+            lost = sorted({k[len(prefix):] for k in known if k.startswith(prefix) and '.' not in k[len(prefix):]
+                           and k[len(prefix):] not in nested_now})
+            if not lost and ref_locals:
+                bound_now = {x.id for x in ast.walk(m_) if isinstance(x, ast.Name)} | nested_now | \
+                    {a.arg for a in m_.args.args}
+                lost = sorted(n_ for n_ in ref_locals.get(prefix[:-1], []) if n_ not in bound_now)
+            cands = [f for f in lost if f.lstrip('_') == g.name.lstrip('_')] or (lost if len(lost) == 1 else [])
+            if not cands:
+                cands = sorted([f for f in lost if len(f.strip('_')) > 3 and f.strip('_') in g.name], key=len)[-1:]
+            # `f = self.g` in m: the alias is the closure's old name
+            alias = [st for st in ast.walk(m_) if isinstance(st, ast.Assign) and len(st.targets) == 1 and
+                     isinstance(st.targets[0], ast.Name) and any(st.value is r for r in refs)]
+            if alias and ref_locals and alias[0].targets[0].id in ref_locals.get(prefix[:-1], []):
+                cands = [alias[0].targets[0].id]
+                for lst_ in _all_stmt_lists(m_):
+                    if alias[0] in lst_:
+                        lst_.remove(alias[0])
+                        if not lst_:
+                            lst_.append(ast.copy_location(ast.Pass(), alias[0]))
+            if len(cands) != 1:
+                continue
+            fname = cands[0]
+            new = copy.deepcopy(g)
+            new.name = fname
+            new.decorator_list = []
+            pos = 1 if (m_.body and isinstance(m_.body[0], ast.Expr) and isinstance(m_.body[0].value, ast.Constant)) else 0
+            m_.body.insert(pos, ast.copy_location(new, m_.body[pos] if pos < len(m_.body) else m_))
+
+            class T(ast.NodeTransformer):
+                def visit_Attribute(self, node):
+                    self.generic_visit(node)
+                    if any(node is r for r in refs):
+                        return ast.copy_location(ast.Name(fname, ast.Load()), node)
+                    return node
+            T().visit(m_)
+            c.body.remove(g)
+            ast.fix_missing_locations(tree)
+            done.append('%s.%s -> %s.%s.%s' % (c.name, g.name, c.name, m_.name, fname))
+    return done
+
+
+def table_loops(tree):
+    """for NAME in <constant tuple/list of strings, literal or a module-level constant>:
+           setattr(OBJ, NAME, getattr(SRC, NAME))          ->  OBJ.a = SRC.a; OBJ.b = SRC.b; ...
+    (the loop body is that single statement); and, in a class body,
+       NAME = property(lambda self: EXPR)                  ->  @property def NAME(self): return EXPR"""
+    n = 0
+    consts = {}
+    for st in tree.body:
+        if isinstance(st, ast.Assign) and len(st.targets) == 1 and isinstance(st.targets[0], ast.Name) and \
+                isinstance(st.value, (ast.Tuple, ast.List)) and st.value.elts and \
+                all(isinstance(e, ast.Constant) and isinstance(e.value, str) and e.value.isidentifier()
+                    for e in st.value.elts):
+            consts[st.targets[0].id] = [e.value for e in st.value.elts]
+    for lst in _all_stmt_lists(tree):
+        i = 0
+        while i < len(lst):
+            st = lst[i]
+            if isinstance(st, ast.For) and not st.orelse and isinstance(st.target, ast.Name) and len(st.body) == 1:
+                names = None
+                if isinstance(st.iter, ast.Name) and st.iter.id in consts:
+                    names = consts[st.iter.id]
+                elif isinstance(st.iter, (ast.Tuple, ast.List)) and st.iter.elts and \
+                        all(isinstance(e, ast.Constant) and isinstance(e.value, str) and e.value.isidentifier()
+                            for e in st.iter.elts):
+                    names = [e.value for e in st.iter.elts]
+                b = st.body[0]
+                v = st.target.id
+                if names and isinstance(b, ast.Expr) and isinstance(b.value, ast.Call) and \
+                        isinstance(b.value.func, ast.Name) and b.value.func.id == 'setattr' and \
+                        len(b.value.args) == 3 and isinstance(b.value.args[1], ast.Name) and \
+                        b.value.args[1].id == v and isinstance(b.value.args[2], ast.Call) and \
+                        isinstance(b.value.args[2].func, ast.Name) and b.value.args[2].func.id == 'getattr' and \
+                        len(b.value.args[2].args) == 2 and isinstance(b.value.args[2].args[1], ast.Name) and \
+                        b.value.args[2].args[1].id == v:
+                    obj, src = b.value.args[0], b.value.args[2].args[0]
+                    new = []
+                    for nm in names:
+                        a = ast.Assign([ast.Attribute(copy.deepcopy(obj), nm, ast.Store())],
+                                       ast.Attribute(copy.deepcopy(src), nm, ast.Load()))
+                        new.append(ast.fix_missing_locations(ast.copy_location(a, st)))
+                    lst[i:i + 1] = new
+                    n += 1
+                    i += len(new)
+                    continue
+            i += 1
+    for c in [x for x in ast.walk(tree) if isinstance(x, ast.ClassDef)]:
+        for i, st in enumerate(list(c.body)):
+            if isinstance(st, ast.Assign) and len(st.targets) == 1 and isinstance(st.targets[0], ast.Name) and \
+                    isinstance(st.value, ast.Call) and isinstance(st.value.func, ast.Name) and \
+                    st.value.func.id == 'property' and len(st.value.args) == 1 and not st.value.keywords and \
+                    isinstance(st.value.args[0], ast.Lambda):
+                lam = st.value.args[0]
+                fn = ast.FunctionDef(name=st.targets[0].id, args=lam.args, body=[ast.Return(lam.body)],
+                                     decorator_list=[ast.Name('property', ast.Load())], returns=None,
+                                     type_comment=None, type_params=[])
+                c.body[c.body.index(st)] = ast.fix_missing_locations(ast.copy_location(fn, st))
+                n += 1
+    return n
+
+
 def small_forms(tree):
     tree = _SmallForms().visit(tree)
     tree = _SmallForms2().visit(tree)
     fold_struct_constants(tree)
+    int_bytes_forms(tree)
+    flag_loops(tree)
+    table_loops(tree)
     counting_loops(tree)
     return tree
 
@@ -560,6 +970,50 @@ def search_loops(tree):
                     lst[i:i + 2] = [new]
                     n += 1
                     continue
+            i += 1
+    # for/else forms:   for T in IT:                         for T in IT:
+    #                       if C: break                          if C: break
+    #                   else:                                else:
+    #                       T = D      (T a plain name)          return D
+    #                                                        return E
+    for lst in _all_stmt_lists(tree):
+        i = 0
+        while i < len(lst):
+            a = lst[i]
+            if isinstance(a, ast.For) and len(a.orelse) == 1:
+                c, inner = _single_if(a.body)
+                e = a.orelse[0]
+                if c is not None and len(inner) == 1 and isinstance(inner[0], ast.Break):
+                    if isinstance(a.target, ast.Name) and isinstance(e, ast.Assign) and len(e.targets) == 1 and \
+                            isinstance(e.targets[0], ast.Name) and e.targets[0].id == a.target.id:
+                        gen = ast.GeneratorExp(ast.Name(a.target.id, ast.Load()),
+                                               [ast.comprehension(a.target, a.iter, [c], 0)])
+                        new = ast.Assign([ast.Name(a.target.id, ast.Store())],
+                                         ast.Call(ast.Name('next', ast.Load()), [gen, e.value], []))
+                        ast.copy_location(new, a)
+                        ast.fix_missing_locations(new)
+                        lst[i] = new
+                        n += 1
+                elif c is not None and len(inner) == 2 and isinstance(inner[1], ast.Break) and \
+                        isinstance(inner[0], ast.Assign) and len(inner[0].targets) == 1 and \
+                        isinstance(e, ast.Assign) and len(e.targets) == 1 and \
+                        ast.dump(inner[0].targets[0]) == ast.dump(e.targets[0]):
+                    # for T in IT: if C: V = E; break  else: V = D
+                    gen = ast.GeneratorExp(inner[0].value, [ast.comprehension(a.target, a.iter, [c], 0)])
+                    new = ast.Assign(e.targets, ast.Call(ast.Name('next', ast.Load()), [gen, e.value], []))
+                    ast.copy_location(new, a)
+                    ast.fix_missing_locations(new)
+                    lst[i] = new
+                    n += 1
+                if c is not None and len(inner) == 1 and isinstance(inner[0], ast.Break) and lst[i] is a:
+                    if isinstance(e, ast.Return) and e.value is not None and i + 1 < len(lst) and \
+                            isinstance(lst[i + 1], ast.Return) and lst[i + 1].value is not None:
+                        gen = ast.GeneratorExp(lst[i + 1].value, [ast.comprehension(a.target, a.iter, [c], 0)])
+                        new = ast.Return(ast.Call(ast.Name('next', ast.Load()), [gen, e.value], []))
+                        ast.copy_location(new, a)
+                        ast.fix_missing_locations(new)
+                        lst[i:i + 2] = [new]
+                        n += 1
             i += 1
     return n
 
